@@ -363,11 +363,12 @@ def check_dmr_shots(case, acc):
         with seams.patched(BK, "stats", seams.StatsProxy(ch)):
             f = {"exp": be.get_expectation_value, "var": be.get_variance, "se": be.get_standard_error}[what]
             try:
-                return ("value", as_complex(f(qop, c, desired_meas_result=dmr)))
+                v = as_complex(f(qop, c, desired_meas_result=dmr))
+                return ("value", v, dict(getattr(be, "all_frequencies", {}) or {}))
             except choicetree.HorizonExceeded:
                 raise
             except Exception as e:   # e.g. no shot matched the requested outcome: refusing is allowed
-                return ("raised", type(e).__name__)
+                return ("raised", type(e).__name__, dict(getattr(be, "all_frequencies", {}) or {}))
 
     n_exec = 0
     for choices, trace, infos, res in choicetree.explore(run, horizon=14, max_exec=4000):
@@ -385,12 +386,107 @@ def check_dmr_shots(case, acc):
                 acc.violation(f"cirq/dmr-shots/{what}/sampler-handed-distribution-without-post-selection/{op_sig(op)}", case,
                               {"handed": handed, "post_selected_refs": refs, "sampler": t3[2]},
                               group=f"cirq/dmr-shots/{what}/sampler-handed-distribution-without-post-selection")
-        acc.out((what, repr(res)))
+        # single-term operators: the estimate must be the mean parity over exactly the shots whose mid-circuit record
+        # equals the requested string (the table of shots recorded by the backend for that term)
+        nz = [(t, cf) for t, cf in op_terms(op).items() if t]
+        if what == "exp" and len(nz) == 1 and res != "HORIZON" and res[0] == "value":
+            nm = len(dmr)
+            allf = res[2]
+            sel = {k[nm:]: v for k, v in allf.items() if k[:nm] == dmr}
+            tot = sum(sel.values())
+            if tot == 0 and allf and all(len(k) == nm + n for k in allf):
+                acc.violation(f"cirq/dmr-shots/exp/estimate-although-no-shot-matches/{op_sig(op)}", case,
+                              {"returned": res[1], "recorded_shots": allf, "desired": dmr},
+                              group="cirq/dmr-shots/exp/estimate-although-no-shot-matches")
+            if tot > 0 and all(len(k) == nm + n for k in allf):
+                t, cf = nz[0]
+                want = cf * sum(v / tot * SV.parity_value(k, t) for k, v in sel.items()) + sum(cf2 for t2, cf2 in op_terms(op).items() if not t2)
+                if abs(res[1] - want) > 1e-12:
+                    acc.violation(f"cirq/dmr-shots/exp/estimate-not-from-post-selected-shots/{op_sig(op)}", case,
+                                  {"returned": res[1], "expected": want, "recorded_shots": allf, "desired": dmr},
+                                  group="cirq/dmr-shots/exp/estimate-not-from-post-selected-shots")
+        acc.out((what, repr(res[:2]) if res != "HORIZON" else res))
     if choicetree.explore.capped:
         acc.caps.append("dmr-shots execution cap")
     acc.states += n_exec
     if n_exec > 1:
         acc.nt(("dmr-shots", what, prep["w"], op, dmr))
+
+
+def check_history(case, acc):
+    """E2-style: ONE backend object serves a sequence of evaluations; operator objects are modified in place between
+    calls and circuits change. Every value must be that of the current operator and circuit (no state may leak from an
+    earlier call: stale translated operators, cached states, ...)."""
+    from tangelo.linq import get_backend
+    from tangelo.toolboxes.operators import QubitOperator
+    P = case["preps"]
+    be = get_backend(case["backend"], n_shots=None)
+    order = be.backend_info()["statevector_order"]
+    objs = {}
+    hist = []
+    for step in case["steps"]:
+        hist.append(step)
+        kind = step[0]
+        if kind == "new":          # ("new", name, op)
+            objs[step[1]] = mk_op([tuple(x) for x in step[2]])
+            continue
+        if kind == "iadd":         # ("iadd", name, word, coef)  in-place modification of an existing operator object
+            objs[step[1]] += QubitOperator(word_to_term(step[2]), step[3])
+            continue
+        if kind == "imul":
+            objs[step[1]] *= step[2]
+            continue
+        if kind == "setterm":
+            objs[step[1]].terms[word_to_term(step[2])] = step[3]
+            continue
+        # ("eval", name, prep index, init)
+        _, name, pi, init_kind = step
+        prep = P[pi]
+        n = width_of(prep)
+        init = dense_state(n) if init_kind == "dense" else None
+        psi = SV.run(prep["w"], n, init)
+        terms = {t: c for t, c in objs[name].terms.items()}
+        ref = complex(np.vdot(psi, SV.op_matrix(terms, n) @ psi))
+        init_be = None if init is None else SV.to_order(init, n, order)
+        acc.ev()
+        acc.transitions += 1
+        try:
+            got = as_complex(be.get_expectation_value(objs[name], mk_circ(prep), initial_statevector=init_be))
+        except Exception as e:
+            acc.violation(f"{case['backend']}/history/exception", dict(case, steps=list(hist)), {"err": repr(e)[:300]},
+                          group=f"{case['backend']}/history/exception")
+            return
+        if abs(got - ref) > 1e-8:
+            acc.violation(f"{case['backend']}/history/value-depends-on-earlier-calls", dict(case, steps=list(hist)),
+                          {"got": got, "ref": ref}, group=f"{case['backend']}/history/value-depends-on-earlier-calls")
+            return
+    acc.nt(("history", case["steps"]))
+
+
+def histories(tier):
+    """All sequences eval . mutate . eval (. mutate . eval) over a small menu; operator words fit 2 qubits."""
+    ops0 = [[("ZII", 1.0)], [("XXI", 0.5), ("IZI", -1.0)]]
+    muts = [("iadd", "XII", 0.7), ("iadd", "ZII", -1.0), ("imul", 2.0), ("setterm", "IYI", 0.25), ("setterm", "ZII", 0.0)]
+    evs = [(2, None), (3, None), (3, "dense"), (0, None), (5, None)]
+    out = []
+    depth = 2 if tier == "quick" else 3
+    for o in ops0:
+        for e0 in evs:
+            base = [("new", "A", o), ("eval", "A", e0[0], e0[1])]
+            def rec(prefix, d):
+                if d == 0:
+                    return
+                for m in muts:
+                    for e in evs[:3] if tier == "quick" else evs:
+                        mstep = (m[0], "A") + tuple(m[1:])
+                        h = prefix + [mstep, ("eval", "A", e[0], e[1])]
+                        out.append(h)
+                        rec(h, d - 1)
+            rec(base, depth)
+    # two operator objects alternating on the same backend
+    out.append([("new", "A", ops0[0]), ("new", "B", ops0[1]), ("eval", "A", 2, None), ("eval", "B", 2, None), ("eval", "A", 3, None),
+                ("iadd", "B", "XII", 0.7), ("eval", "B", 3, None), ("eval", "A", 2, None)])
+    return out
 
 
 # ---------------------------------------------------------------------------------------------------------------------
@@ -418,6 +514,8 @@ def shards(tier, seed):
     for pi in (0, 2, 3, 4, 5, 10):
         for what in ("exp", "var", "se"):
             sh.append({"kind": "shots", "pi": pi, "what": what, "seed": seed, "tier": tier})
+    for part in range(16):
+        sh.append({"kind": "history", "part": part, "seed": seed, "tier": tier})
     for mi in (0, 1, 2, 4):
         sh.append({"kind": "mixed_shots", "mi": mi, "seed": seed, "tier": tier})
         sh.append({"kind": "dmr_shots", "mi": mi, "seed": seed, "tier": tier})
@@ -508,6 +606,16 @@ def run_shard(sh):
             if op_fits(op, n):
                 check_mixed_shots({"kind": "mixed_shots", "prep": prep, "op": op, "n_shots": 1}, acc)
         acc.sample({"kind": "mixed_shots", "prep": prep, "op": single[1], "n_shots": 1}, cap=1)
+    elif k == "history":
+        H = histories(sh["tier"])
+        for i, h in enumerate(H):
+            if i % 16 != sh["part"]:
+                continue
+            for b in (("cirq", "sympy") if len(h) <= 4 and i % 5 == 0 else ("cirq",)):
+                acc.states += 1
+                check_history({"kind": "history", "backend": b, "preps": P, "steps": h}, acc)
+        if sh["part"] == 0:
+            acc.sample({"kind": "history", "backend": "cirq", "steps": H[7]}, cap=1)
     elif k == "dmr_shots":
         prep = M[sh["mi"]]
         n = width_of(prep)
@@ -518,6 +626,8 @@ def run_shard(sh):
                 for what in ("exp", "var"):
                     acc.states += 1
                     check_dmr_shots({"kind": "dmr_shots", "prep": prep, "op": op, "n_shots": 1, "what": what, "dmr": "".join(bits)}, acc)
+                if nm <= 1 or sh["tier"] == "thorough":
+                    check_dmr_shots({"kind": "dmr_shots", "prep": prep, "op": op, "n_shots": 2, "what": "exp", "dmr": "".join(bits)}, acc)
         acc.sample({"kind": "dmr_shots", "prep": prep, "op": ops[0], "n_shots": 1, "what": "var", "dmr": "1" * nm}, cap=1)
     return acc
 
@@ -536,6 +646,9 @@ def replay_case(case):
         check_mixed_shots(case, acc)
     elif k == "dmr_shots":
         check_dmr_shots(case, acc)
+    elif k == "history":
+        case["steps"] = [tuple(x) for x in case["steps"]]
+        check_history(case, acc)
     return acc
 
 
